@@ -106,15 +106,12 @@ def literal_only(node):
     return all(isinstance(n, (ast.Expression, ast.BinOp, ast.UnaryOp, ast.Constant, ast.operator, ast.unaryop, ast.expr_context)) for n in ast.walk(node))
 
 
-def fold_run(model, source, evaluated=None):
-    """Abstractly run add_namespace + FoldConstants()(module) on `source`. -> (original CPython tree, resulting module descriptor | ('raise', what)).
-    eval() is answered here for literal-only text. Text that is not literal-only is never evaluated: it is recorded in `evaluated` (when given,
-    as (text, False)) and answered with NameError, or - without a recorder - is an analysis error."""
-    import copy
-    from ..absint import ClassRef, _Raise
-    from ..absnodes import set_parents
-    from ..absprint import printer_hooks, to_obj
-    FC = MOD + '.FoldConstants'
+def fold_hooks(evaluated=None):
+    """Hooks under which the folding transform can be evaluated: the printer's helpers, and eval() answered here for literal-only text. Text that
+    is not literal-only is never evaluated: it is recorded in `evaluated` (when given, as (text, False)) and answered with NameError, or -
+    without a recorder - is an analysis error."""
+    from ..absint import _Raise
+    from ..absprint import printer_hooks
 
     def safe_eval_hook(I, e, args, kw, env):
         text = args[0]
@@ -135,29 +132,23 @@ def fold_run(model, source, evaluated=None):
             return eval(compile(t, 'literal', 'eval'), {'__builtins__': {}}, {})   # literal numbers and operators only (checked above)
         except Exception as ex:
             raise _Raise(type(ex).__name__)
-
-    tree = ast.parse(source)
-    mod = to_obj(copy.deepcopy(tree))
-    set_parents(mod)
     hooks = printer_hooks()
     hooks.pop('compare_ast', None)
     hooks['safe_eval'] = safe_eval_hook
     hooks['eval'] = lambda I, e, args, kw, env: safe_eval_hook(I, e, args, kw, env)
     hooks['math.isnan'] = lambda I, e, args, kw, env: (args[0] != args[0]) if isinstance(args[0], float) else (TOP if args[0] is TOP else False)
-    I = Interp(model, MOD, hooks, max_depth=600)
-    I.MAX_PATHS = 16
+    return hooks
 
-    def thunk():
-        I.call_function('python_minifier.rename.mapper.add_namespace', [mod])
-        t = I.construct(ClassRef('FoldConstants', FC), [], {})
-        return I.call_method(FC, '__call__', t, [mod])
-    res = I.explore(thunk)
-    if len(res) == 1 and res[0][0][0] == 'raise':
-        return tree, ('raise', res[0][0][1])
-    if len(res) != 1 or res[0][0][0] != 'return':
-        raise AnalysisError('UNDECIDED: FoldConstants on %r... -> %s %s' % (source[:40], [r[0] for r in res][:2], res[0][2][:3]))
-    out = res[0][0][1]
-    return tree, (out if out is not None else mod)
+
+def fold_run(model, source, evaluated=None):
+    """minify() itself, evaluated with only constant_folding on, on `source`. -> (original CPython tree, resulting module descriptor | ('raise', what))."""
+    import copy
+    from ..minrun import minify_tree
+    tree = ast.parse(source)
+    kind, out, mod = minify_tree(model, source, {'constant_folding': True}, tree=copy.deepcopy(tree), extra_hooks=fold_hooks(evaluated), max_paths=16)
+    if kind == 'raise':
+        return tree, ('raise', out)
+    return tree, mod
 
 
 def printed_values(model, tree, n):
